@@ -174,6 +174,9 @@ func (rep *Report) finish(E *Engine, prop string, cfg *PropCfg, tier string, see
 	notes := map[string]bool{}
 	violations := 0
 	replayDir := filepath.Join(verifDir, "out", prop, "replay")
+	if scratchDir != "" {
+		replayDir = filepath.Join(scratchDir, "replay")
+	}
 	os.MkdirAll(replayDir, 0o755)
 	var lines []string
 	for _, r := range rep.Funcs {
@@ -323,8 +326,12 @@ func (rep *Report) finish(E *Engine, prop string, cfg *PropCfg, tier string, see
 		"violations":  violations,
 	}
 	b, _ := json.MarshalIndent(ev, "", " ")
-	os.MkdirAll(filepath.Join(verifDir, "evidence"), 0o755)
-	os.WriteFile(filepath.Join(verifDir, "evidence", prop+".json"), b, 0o644)
+	evd := filepath.Join(verifDir, "evidence")
+	if evidenceDir != "" {
+		evd = evidenceDir
+	}
+	os.MkdirAll(evd, 0o755)
+	os.WriteFile(filepath.Join(evd, prop+".json"), b, 0o644)
 	fmt.Printf("%s %s: %d obligations, %d discharged, %d violations, %d known findings, %.1fs\n", prop, tier, nobl, ndis, violations, len(knownHits), rep.WallS)
 	if violations > 0 {
 		return 1
